@@ -64,9 +64,9 @@ def subst(t, env):
     k = t[0]
     if k == "param":
         return env[t[1]]
-    if k in ("prim", "unit", "string", "boxstr", "rfull"):
+    if k in ("prim", "unit", "string", "boxstr", "rfull", "str", "raw"):
         return t
-    if k in ("ph", "vec", "bslice", "sref", "siter", "opt", "bound"):
+    if k in ("ph", "vec", "bslice", "sref", "siter", "opt", "bound", "ref", "slice"):
         return (k, subst(t[1], env))
     if k in ("arr", "tup"):
         return (k, t[1], subst(t[2], env))
@@ -192,6 +192,8 @@ def const_feed(ct, cv):
 
 def model_ty(U, t):
     k = t[0]
+    if k == "raw":
+        return t[2]
     if k == "prim":
         return t[1]
     if k == "unit":
@@ -277,7 +279,118 @@ def rust_ty(U, t, lt="'static"):
         return d.path + ("<%s>" % ", ".join(args) if args else "")
     if k == "param":
         return t[1]
+    if k == "ref":
+        return "&%s %s" % (lt, rust_ty(U, t[1], lt))
+    if k == "slice":
+        return "&%s [%s]" % (lt, rust_ty(U, t[1], lt))
+    if k == "str":
+        return "&%s str" % lt
+    if k == "raw":
+        return t[1]
     raise ValueError(t)
+
+
+def bare_params(d):
+    """type parameters that are the declared type of some field (of some variant)"""
+    fl = d.body if d.kind == "struct" else [f for (_, _, fs) in d.body for f in fs]
+    return set(te[1] for (_, te) in fl if te[0] == "param")
+
+
+def desertype(U, t):
+    """The ε-copy type, by the rule of the documentation: a zero-copy type becomes a reference to
+    itself; vectors / boxed slices of zero-copy items become slices, strings become &str; a
+    deep-copy derived type keeps its name with exactly the type parameters that are the type of
+    some field replaced by their own ε-copy type.  Result in the type language extended with
+    ('ref', T), ('slice', T), ('str',)."""
+    k = t[0]
+    if k in ("prim", "unit", "ph", "rfull"):
+        return t
+    if k in ("string", "boxstr"):
+        return ("str",)
+    if k in ("vec", "bslice"):
+        return ("slice", t[1]) if is_zc(U, t[1]) else (k, desertype(U, t[1]))
+    if k == "arr":
+        return ("ref", t) if is_zc(U, t[2]) else ("arr", t[1], desertype(U, t[2]))
+    if k == "tup":
+        return ("ref", t)
+    if k in ("opt", "bound"):
+        return (k, desertype(U, t[1]))
+    if k == "cf":
+        return (k, desertype(U, t[1]), desertype(U, t[2]))
+    if k == "range":
+        return (k, t[1], desertype(U, t[2]))
+    if k == "adt":
+        d = U.defs[t[1]]
+        if d.copy == "zero":
+            return ("ref", t)
+        bare = bare_params(d)
+        return ("adt", t[1], tuple(desertype(U, a) if p in bare else a for p, a in zip(d.tparams, t[2])))
+    raise ValueError(t)
+
+
+def dty_sexp(U, t):
+    """canonical text of an ε-copy type, field by field (the model driver prints the same)"""
+    k = t[0]
+    if k == "prim":
+        return t[1]
+    if k in ("unit", "string", "boxstr", "rfull", "str"):
+        return k
+    if k in ("ph", "vec", "bslice", "opt", "bound", "ref", "slice", "sref", "siter"):
+        return "(%s %s)" % (k, dty_sexp(U, t[1]))
+    if k in ("arr", "tup"):
+        return "(%s %x %s)" % (k, t[1], dty_sexp(U, t[2]))
+    if k == "cf":
+        return "(cf %s %s)" % (dty_sexp(U, t[1]), dty_sexp(U, t[2]))
+    if k == "range":
+        return "(range %s %s)" % (t[1], dty_sexp(U, t[2]))
+    if k == "adt":
+        d = U.defs[t[1]]
+        b = inst_fields(U, t)
+        nm = hx(d.name.encode())
+        if d.kind == "struct":
+            return "(struct %s%s)" % (nm, "".join(" " + dty_sexp(U, ft) for (_, _, ft) in b))
+        return "(enum %s%s)" % (nm, "".join(" (v%s)" % "".join(" " + dty_sexp(U, ft) for (_, _, ft) in l) for (_, _, l) in b))
+    raise ValueError(t)
+
+
+def scale_borrowed(U, t, v, k):
+    """the same value with every sequence that ε-copy deserialization returns as a borrowed
+    slice / str made k times longer (same skeleton); None if nothing is borrowed with a length"""
+    changed = [False]
+
+    def go(t, v):
+        kk = t[0]
+        if kk in ("string", "boxstr"):
+            if len(v[1]):
+                changed[0] = True
+            return ("b", v[1] * k)
+        if kk in ("vec", "bslice"):
+            if is_zc(U, t[1]):
+                if len(v[1]):
+                    changed[0] = True
+                return ("s", list(v[1]) * k)
+            return ("s", [go(t[1], x) for x in v[1]])
+        if kk == "arr":
+            return v if is_zc(U, t[2]) else ("s", [go(t[2], x) for x in v[1]])
+        if kk in ("opt", "bound"):
+            return ("t", v[1], [go(t[1], x) for x in v[2]])
+        if kk == "cf":
+            return ("t", v[1], [go(t[1 + v[1]], x) for x in v[2]])
+        if kk == "range":
+            n = 2 if t[1] in ("range", "incl") else 1
+            return ("s", [go(t[2], x) for x in v[1][:n]] + list(v[1][n:]))
+        if kk == "adt":
+            d = U.defs[t[1]]
+            if d.copy == "zero":
+                return v
+            b = inst_fields(U, t)
+            if d.kind == "struct":
+                return ("s", [go(ft, x) if isp else x for (_, isp, ft), x in zip(b, v[1])])
+            return ("t", v[1], [go(ft, x) if isp else x for (_, isp, ft), x in zip(b[v[1]][2], v[2])])
+        return v
+
+    r = go(t, v)
+    return r if changed[0] else None
 
 
 def rust_const(ct, cv):
@@ -369,6 +482,8 @@ def rust_val(U, t, v, cx):
         if v[1][2][1]:
             return "{ let mut r = %s..=%s; r.next(); r }" % (xs[0], xs[1])
         return "(%s..=%s)" % (xs[0], xs[1])
+    if k == "adt" and getattr(U.defs[t[1]], "liar", False):
+        return '%s { data: "this lives in the address space of the writer" }' % U.defs[t[1]].path
     if k == "adt":
         d = U.defs[t[1]]
         b = inst_fields(U, t)
@@ -393,8 +508,57 @@ def rust_texpr(U, te):
     return rust_ty(U, te, "'static")
 
 
+LIAR_SRC = """#[derive(Clone, Copy, Debug)]
+pub struct %(n)s { pub data: &'static str }
+// wrongly declared zero-copy by hand; IS_ZERO_COPY tells the truth
+impl epserde::traits::CopyType for %(n)s { type Copy = epserde::traits::Zero; }
+impl epserde::traits::MaxSizeOf for %(n)s { fn max_size_of() -> usize { 8 } }
+impl epserde::traits::TypeHash for %(n)s { fn type_hash(h: &mut impl core::hash::Hasher) { use core::hash::Hash; "%(n)s".hash(h); } }
+impl epserde::traits::AlignHash for %(n)s { fn align_hash(_h: &mut impl core::hash::Hasher, off: &mut usize) { *off += 16; } }
+impl epserde::ser::SerializeInner for %(n)s {
+    type SerType = Self;
+    const IS_ZERO_COPY: bool = false;
+    const ZERO_COPY_MISMATCH: bool = false;
+    fn _serialize_inner(&self, backend: &mut impl epserde::ser::WriteWithNames) -> epserde::ser::Result<()> {
+        epserde::ser::helpers::serialize_zero(backend, self)
+    }
+}
+impl epserde::deser::DeserializeInner for %(n)s {
+    type DeserType<'a> = &'a %(n)s;
+    fn _deserialize_full_inner(backend: &mut impl epserde::deser::ReadWithPos) -> core::result::Result<Self, epserde::deser::Error> {
+        epserde::deser::helpers::deserialize_full_zero::<Self>(backend)
+    }
+    fn _deserialize_eps_inner<'a>(backend: &mut epserde::deser::SliceWithPos<'a>) -> core::result::Result<Self::DeserType<'a>, epserde::deser::Error> {
+        epserde::deser::helpers::deserialize_eps_zero::<Self>(backend)
+    }
+}
+impl Obs for %(n)s { fn obs(&self, out: &mut String) { out.push_str("[n0,n0]"); } }"""
+
+
+def has_liar(U, t):
+    """does the type mention a hand-written, wrongly declared zero-copy type?"""
+    k = t[0]
+    if k == "adt":
+        d = U.defs[t[1]]
+        if getattr(d, "liar", False):
+            return True
+        if any(has_liar(U, a) for a in t[2]):
+            return True
+        fl = d.body if d.kind == "struct" else [f for (_, _, fs) in d.body for f in fs]
+        return any(has_liar(U, te) for (_, te) in fl if te[0] != "param")
+    if k in ("ph", "vec", "bslice", "sref", "siter", "opt", "bound"):
+        return has_liar(U, t[1])
+    if k in ("arr", "tup", "range"):
+        return has_liar(U, t[2])
+    if k == "cf":
+        return has_liar(U, t[1]) or has_liar(U, t[2])
+    return False
+
+
 def rust_def(U, d):
     """Source of the definition plus its Obs impl."""
+    if getattr(d, "liar", False):
+        return LIAR_SRC % {"n": d.name}
     attrs = ["#[derive(Epserde, Debug, Clone%s)]" % (", Copy" if d.copy == "zero" else "")]
     for r in d.reprs:
         attrs.append("#[repr(%s)]" % r)
